@@ -69,6 +69,10 @@ class CountingProxy:
         self.cols += rhs.shape[-1] if rhs.ndim > 1 else 1
         self.last_x0 = None if x0 is None else np.array(x0)
         self.last_trans = trans
+        if x0 is not None and np.shape(x0) != np.shape(rhs):
+            # a direct solver ignores x0; an iterative one (CG) fails on an initial guess that does not match the right-hand
+            # side it is given -- the proxy is as strict as that
+            raise ValueError(f"initial guess of shape {np.shape(x0)} for a right-hand side of shape {np.shape(rhs)}")
         return self.inner.solve(rhs, x0=x0, trans=trans)
 
 
@@ -328,6 +332,16 @@ def gen_history(rng, n, nops, sparse=False, classes=None, first_pattern=None, sy
         if cur is not None and trans != "X":
             for v in cols:
                 solved.append((trans, v))
+    if rng.random() < 0.2:
+        # all loads of the history tiny (exact power-of-two scaling): every test of the wrapper is RELATIVE, so counts, database
+        # sizes and (scaled) answers must be what they are at scale one
+        sc = 2.0 ** -rng.choice([24, 30, 40])
+        for op in ops:
+            if op["op"] == "solve":
+                op["rhs"] = [np.asarray(v) * sc for v in op["rhs"]]
+                if op.get("x0") is not None:
+                    op["x0"]["v"] = [np.asarray(v) * sc for v in op["x0"]["v"]]
+                op["kinds"] = list(op["kinds"]) + ["tiny"]
     return {"n": n, "sparse": sparse, "usym": usym, "uherm": uherm, "ops": ops, "field": "QI" if anyc else "Q"}
 
 
@@ -450,6 +464,17 @@ def oracle_history(h, obs=None, obs_fresh=None):
         if "err" in o:
             if "err" not in of:
                 return f"op {i}: solve fails with {o['msg']} on the long-lived wrapper but succeeds on a fresh one"
+            # the same single call on a wrapper that has seen NOTHING but update(current matrix)
+            last_up = [u for u in ih["ops"][:i] if u["op"] == "update"]
+            if last_up:
+                w1, _ = _mk_wrapper(ih["sparse"], ih["usym"], ih["uherm"])
+                with warnings.catch_warnings(), np.errstate(all="ignore"):
+                    warnings.simplefilter("ignore")
+                    r0 = call_impl(w1.update, _mat(last_up[-1], ih["sparse"]))
+                    r1 = call_impl(w1.solve, _rhs(ih["ops"][i]), x0=_x0(ih["ops"][i]), trans=ih["ops"][i]["trans"]) if r0[0] == "ok" else r0
+                if r1[0] == "ok":
+                    return (f"op {i}: solve fails with {o['msg']} after the earlier solves of this history, but the same call "
+                            f"succeeds on a fresh wrapper")
             continue
         if "err" in of:
             continue
@@ -579,6 +604,9 @@ def compare_history(ctx, h, mres, tag):
                 ctx.compare_close("solve.x0", case, X0.T.flatten().tolist(), [z for col in sel for z in col],
                                   rtol=1e-7, atol=1e-9, scale=s0, key=sig + ("x0",))
                 ctx.branch("solve.x0_deflated")
+            else:
+                ctx.disagree("solve.x0", case, f"{X0.shape[1]} columns", f"{len(sel)} columns",
+                             "the initial guess handed to the inner solver does not have the columns of the right-hand side it gets")
         ctx.branch(f"solve.trans.{op['trans']}.{'inner' if o['calls'] else 'reused'}")
         ctx.branch("solve.vector" if op["vec"] else f"solve.block{len(op['rhs'])}")
         for kd in op["kinds"]:
